@@ -1,5 +1,6 @@
 pub mod custom;
 pub mod doc;
 pub mod edits;
+pub mod grammar;
 pub mod query;
 pub mod sentence;
